@@ -64,3 +64,6 @@ func firstDiff(a, b string) string {
 	}
 	return "…" + clipS(a[lo:], 120) + "  VS  …" + clipS(b[lo:], 120)
 }
+
+// runPath runs a project from a root file path that already exists on disk.
+func runPath(root string, opt drv.Options) drv.Outcome { return drv.RunPath(root, opt) }
